@@ -88,7 +88,7 @@ def run(only=None, seeded_too=False):
     for m in load_index():
         if only and m['id'] not in only.split(',') and not set(m['props']) & set(only.split(',')):
             continue
-        items.append((m['id'], MUTANTS / m['patch'], m['props']))
+        items.append((m['id'], MUTANTS / m['patch'], m['props'], bool(m.get('negative_control'))))
     return _run_items(items, 'sensitivity')
 
 
@@ -103,16 +103,18 @@ def run_seeded(only=None):
             if only and d.name not in only.split(',') and m['property'] not in only.split(','):
                 continue
             props = m.get('checks', [m['property']])
-            items.append((d.name, d / 'patch.diff', props))
+            items.append((d.name, d / 'patch.diff', props, False))
     return _run_items(items, 'seeded')
 
 
 def _run_items(items, title):
     results = []
     with ThreadPoolExecutor(max_workers=4) as ex:
-        futs = [ex.submit(run_one, mid, patch, props) for mid, patch, props in items]
-        for f in futs:
-            results.append(f.result())
+        futs = [ex.submit(run_one, mid, patch, props) for mid, patch, props, neg in items]
+        for f, it in zip(futs, items):
+            r = f.result()
+            r['negative_control'] = it[3]
+            results.append(r)
     missed = 0
     for r in results:
         if not r['applied']:
@@ -120,11 +122,28 @@ def _run_items(items, title):
             missed += 1
             continue
         for prop, pr in r['props'].items():
-            status = 'caught' if pr['caught'] else 'MISSED(exit=%s)' % pr['exit']
-            if not pr['caught']:
-                missed += 1
+            if r['negative_control']:
+                status = 'quiet(ok)' if pr['exit'] == 0 else 'FALSE-ALARM(exit=%s)' % pr['exit']
+                if pr['exit'] != 0:
+                    missed += 1
+            else:
+                status = 'caught' if pr['caught'] else 'MISSED(exit=%s)' % pr['exit']
+                if not pr['caught']:
+                    missed += 1
             print('%s %-44s %s %-8s %5.1fs %s %s' % (title, r['id'], prop, status, pr['wall_s'],
                                                     ','.join(pr['signatures'][:2]), pr['tail']))
+    if title == 'seeded':
+        for r in results:
+            meta = SEEDED / r['id'] / 'meta.json'
+            if meta.exists() and r['applied']:
+                m = json.loads(meta.read_text())
+                m['detected_by'] = {
+                    prop: {'caught': pr['caught'], 'quick_check_exit': pr['exit'],
+                           'signatures': pr['signatures']} for prop, pr in r['props'].items()}
+                m['what_i_ran'] = ('git apply patch.diff on a scratch copy of /repo (outside /repo '
+                                   'and /verif), ./vcheck run <property> --tier quick against it via '
+                                   'PHYLIB_VERIF_REPO, copy removed; see sim/mutants.py')
+                meta.write_text(json.dumps(m, indent=1))
     print('%s: %d mutants, %d (mutant, property) pairs missed' % (title, len(results), missed))
     out = VERIF / 'notes' / ('%s-last.json' % title)
     out.parent.mkdir(exist_ok=True)
